@@ -9,8 +9,17 @@ import SymfcModel.Model.Basic
 import SymfcModel.Model.Cell
 import SymfcModel.Model.Cutoff
 import SymfcModel.Model.Perm
+import SymfcModel.Model.SumRule
+import SymfcModel.Model.Coset
+import SymfcModel.Model.Solver
+import SymfcModel.Model.Api
+import SymfcModel.Model.Eig
 import SymfcModel.Gen.PermTables
 import SymfcModel.Gen.Cutoff
+import SymfcModel.Gen.Solver
+import SymfcModel.Gen.Api
+import SymfcModel.Gen.Eig
+import SymfcModel.Gen.SumRule
 open Lean Symfc
 
 def jNat (j : Json) (k : String) : Except String Nat := do
@@ -43,6 +52,134 @@ def jCut (j : Json) : Except String (Option CutoffIn) := do
 def natsJ (l : List Nat) : Json := Json.arr (l.map (fun (n : Nat) => Json.num (JsonNumber.fromNat n))).toArray
 def intsJ (l : List Int) : Json := Json.arr (l.map (fun n => Json.num (JsonNumber.fromInt n))).toArray
 def natMatJ (l : List (List Nat)) : Json := Json.arr (l.map natsJ).toArray
+
+
+def jInt (j : Json) (k : String) : Except String Int := do
+  let v ← j.getObjVal? k
+  v.getInt?
+
+def jIntList (j : Json) : Except String (List Int) := do
+  let a ← j.getArr?
+  a.toList.mapM (fun x => x.getInt?)
+
+def jIntMat (j : Json) : Except String IMat := do
+  let a ← j.getArr?
+  a.mapM (fun r => do let l ← jIntList r; pure l.toArray)
+
+def jBool (j : Json) (k : String) : Except String Bool := do
+  let v ← j.getObjVal? k
+  v.getBool?
+
+def jOptNat (j : Json) (k : String) : Except String (Option Nat) :=
+  match j.getObjVal? k with
+  | .ok .null => pure none
+  | .ok v => do let n ← v.getNat?; pure (some n)
+  | .error _ => pure none
+
+def jOptNatList (j : Json) (k : String) : Except String (Option (List Nat)) :=
+  match j.getObjVal? k with
+  | .ok .null => pure none
+  | .ok v => do let n ← jNatList v; pure (some n)
+  | .error _ => pure none
+
+def pairsJ (l : List (Nat × Nat)) : Json := Json.arr (l.map (fun (a, b) => natsJ [a, b])).toArray
+def imatJ (m : IMat) : Json := Json.arr (m.map (fun r => intsJ r.toList))
+
+def nzCutOf (j : Json) (n : Nat) : Except String (Option (Array Bool)) := do
+  let cut ← jCut j
+  pure (cut.map (fun x => x.nonzeroAtomic Gen.cutoffOps n))
+
+def sumCfg (n : Nat) (fast : Bool) : SumRuleCfg :=
+  match n, fast with
+  | 2, true => Gen.sumRuleCfgO2_fast | 2, false => Gen.sumRuleCfgO2_stable
+  | 3, true => Gen.sumRuleCfgO3_fast | 3, false => Gen.sumRuleCfgO3_stable
+  | _, true => Gen.sumRuleCfgO4_fast | _, false => Gen.sumRuleCfgO4_stable
+
+def chainFor (k : Nat) : Chain := if k == 2 then Gen.chainO2 else if k == 3 then Gen.chainO3 else Gen.chainO4
+
+def jSRows (j : Json) : Except String SRows := do
+  let a ← j.getArr?
+  a.mapM (fun r => do
+    let ents ← r.getArr?
+    ents.toList.mapM (fun e => do
+      let p ← e.getArr?
+      let c ← (p.getD 0 Json.null).getNat?
+      let v ← (p.getD 1 Json.null).getInt?
+      pure (c, v)))
+
+def jOrderData (solver : String) (j : Json) : Except String OrderData := do
+  let k ← jNat j "k"
+  let nx ← jNat j "nx"
+  let cc ← jSRows (← j.getObjVal? "cc")
+  let consts := ((Gen.solverConst6.find? (fun p => p.1 == solver)).map (·.2)).getD []
+  let c6 := ((consts.find? (fun p => p.1 == k)).map (·.2)).getD 0
+  pure { k := k, nx := nx, cc := cc, const6 := c6, chain := chainFor k }
+
+def apiCfg : ApiCfg :=
+  { maxOrderWhitelist := Gen.maxOrderWhitelist, ordersWhitelist := Gen.ordersWhitelist,
+    guards := Gen.datasetGuards, checksFirst := Gen.solveChecksFirst, branches := Gen.solveBranches,
+    runGuarded := Gen.runGuarded, cutoffKeys := Gen.computeCutoffKeys }
+
+def jArr (j : Json) : Except String Arr := do
+  let id ← jNat j "id"
+  let shape ← jNatList (← j.getObjVal? "shape")
+  pure { id := id, shape := shape }
+
+def jOptArr (j : Json) (k : String) : Except String (Option Arr) :=
+  match j.getObjVal? k with
+  | .ok .null => pure none
+  | .ok v => do let a ← jArr v; pure (some a)
+  | .error _ => pure none
+
+def jBasisDict (j : Json) : Except String (List (Nat × Basis)) := do
+  let a ← j.getArr?
+  a.toList.mapM (fun e => do
+    let k ← jNat e "key"
+    let order ← jNat e "order"
+    let cfgId ← jNat e "cfgId"
+    let cutoff ← jOptNat e "cutoff"
+    pure (k, { order := order, cfgId := cfgId, cutoff := cutoff }))
+
+def jApiOp (j : Json) : Except String ApiOp := do
+  let t ← (← j.getObjVal? "t").getStr?
+  match t with
+  | "setDisp" => do let a ← jArr j; pure (.setDisp a)
+  | "setForces" => do let a ← jArr j; pure (.setForces a)
+  | "setBasis" => do let d ← jBasisDict (← j.getObjVal? "dict"); pure (.setBasis d)
+  | "computeBasis" => do
+    pure (.computeBasis (← jOptNat j "max_order") (← jOptNatList j "orders"))
+  | "solve" => do
+    pure (.solve (← jOptNat j "max_order") (← jOptNatList j "orders") (← jBool j "compact"))
+  | "run" => do
+    pure (.run (← jOptNat j "max_order") (← jOptNatList j "orders") (← jBool j "compact"))
+  | _ => throw s!"unknown api op {t}"
+
+def errJ : Option ApiErr → Json
+  | none => Json.str "ok"
+  | some e => Json.str (match e with
+    | .noOrders => "noOrders" | .badMaxOrder => "badMaxOrder" | .badOrders => "badOrders"
+    | .dispNone => "dispNone" | .forcesNone => "forcesNone" | .shapeMismatch => "shapeMismatch"
+    | .dispShape => "dispShape" | .forcesShape => "forcesShape" | .missingBasis => "missingBasis"
+    | .noBranch => "noBranch")
+
+def optNatJ : Option Nat → Json
+  | none => Json.null
+  | some n => Json.num (JsonNumber.fromNat n)
+
+def basisJ (b : Basis) : Json :=
+  Json.mkObj [("order", Json.num (JsonNumber.fromNat b.order)), ("cfgId", Json.num (JsonNumber.fromNat b.cfgId)),
+              ("cutoff", optNatJ b.cutoff)]
+
+def fcValJ (v : FcVal) : Json :=
+  Json.mkObj [("order", Json.num (JsonNumber.fromNat v.order)), ("orders", natsJ v.orders),
+              ("bases", Json.arr (v.bases.map basisJ).toArray),
+              ("disp", Json.num (JsonNumber.fromNat v.disp)), ("forces", Json.num (JsonNumber.fromNat v.forces)),
+              ("compact", Json.bool v.compact)]
+
+def stateJ (s : ApiState) : Json :=
+  Json.mkObj [
+    ("fc", Json.arr (s.fc.map (fun (k, v) => Json.mkObj [("key", Json.num (JsonNumber.fromNat k)), ("val", fcValJ v)])).toArray),
+    ("basis", Json.arr (s.basis.map (fun (k, b) => Json.mkObj [("key", Json.num (JsonNumber.fromNat k)), ("val", basisJ b)])).toArray)]
 
 def stagesFor (n : Nat) : List Stage :=
   if n == 2 then Gen.stagesO2 else if n == 3 then Gen.stagesO3 else Gen.stagesO4
@@ -105,6 +242,118 @@ def handle (j : Json) : Except String Json := do
     | some ptr =>
       let lab := componentLabels ptr
       pure (Json.mkObj [("ptr", intsJ ptr.toList), ("labels", intsJ lab.toList)])
+  | "sum_rule" =>
+    let c ← jCell j; let n ← jNat j "n"
+    let fast ← jBool j "fast"
+    let bs ← jNat j "batch_size"
+    let nz ← nzCutOf j n
+    let cfg := sumCfg n fast
+    match sumRuleBatches c n nz cfg bs with
+    | none => pure (Json.str "ValueError")
+    | some bl =>
+      pure (Json.mkObj [
+        ("divisor", Json.num (JsonNumber.fromNat (cfg.divisor.eval c.N c.nlp))),
+        ("batches", Json.arr (bl.map (fun b => match b with
+          | none => Json.null
+          | some es => pairsJ es)).toArray)])
+  | "sigma_rep" =>
+    let N ← jNat j "N"; let n ← jNat j "n"
+    let g ← jNatList (← j.getObjVal? "perm")
+    let mask ← match j.getObjVal? "mask" with
+      | .ok .null => pure none
+      | .ok v => do let l ← jNatList v; pure (some (l.map (· != 0)).toArray)
+      | .error _ => pure none
+    pure (natsJ (sigmaRep N n g.toArray mask))
+  | "coset_pairs" =>
+    let c ← jCell j; let n ← jNat j "n"
+    let g ← jNatList (← j.getObjVal? "perm")
+    let fast ← jBool j "fast"
+    let nz ← nzCutOf j n
+    pure (pairsJ (cosetPairs c n g.toArray fast nz))
+  | "chain_run" =>
+    let k ← jNat j "k"; let N ← jNat j "N"; let nx ← jNat j "nx"
+    let ents ← (← j.getObjVal? "entries").getArr?
+    let out ← ents.toList.mapM (fun e => do
+      let p ← jNatList e
+      let (r, c) := (chainFor k).run N nx (p.getD 0 0) (p.getD 1 0)
+      pure (natsJ [r, c]))
+    pure (Json.arr out.toArray)
+  | "normal_eq" =>
+    let c ← jCell j
+    let solver ← (← j.getObjVal? "solver").getStr?
+    let odj ← (← j.getObjVal? "orders").getArr?
+    let ods ← odj.toList.mapM (jOrderData solver)
+    let us ← (← (← j.getObjVal? "disps").getArr?).toList.mapM (fun r => do let l ← jIntList r; pure l.toArray)
+    let fs ← (← (← j.getObjVal? "forces").getArr?).toList.mapM (fun r => do let l ← jIntList r; pure l.toArray)
+    let ab ← jNat j "atom_batch"; let sb ← jNat j "snap_batch"
+    let spec := normalEqSpec c ods us fs
+    match normalEqOp c ods us fs ab sb with
+    | none => pure (Json.str "ValueError")
+    | some (g, xy) =>
+      pure (Json.mkObj [("XTX36", imatJ g), ("XTy6", intsJ xy.toList),
+                        ("specXTX36", imatJ spec.1), ("specXTy6", intsJ spec.2.toList)])
+  | "api" =>
+    let natom ← jNat j "natom"
+    let cfgId ← jNat j "cfgId"
+    let cutj ← (← j.getObjVal? "cutoff").getArr?
+    let cutoff ← cutj.toList.mapM (fun e => do
+      let k ← jNat e "key"; let v ← jOptNat e "val"; pure (k, v))
+    let disp ← jOptArr j "disp"
+    let forces ← jOptArr j "forces"
+    let opsj ← (← j.getObjVal? "ops").getArr?
+    let ops ← opsj.toList.mapM jApiOp
+    let s0 : ApiState := { natom := natom, cfgId := cfgId, cutoff := cutoff, disp := disp, forces := forces,
+                           basis := [], fc := [] }
+    let (sfin, outs) := ops.foldl (fun (acc : ApiState × List Json) op =>
+      let (s', e) := step apiCfg acc.1 op
+      (s', acc.2 ++ [Json.mkObj [("result", errJ e), ("state", stateJ s')]])) (s0, [])
+    let _ := sfin
+    pure (Json.arr outs.toArray)
+  | "check_orders" =>
+    let m ← jOptNat j "max_order"; let o ← jOptNatList j "orders"
+    match checkOrders apiCfg m o with
+    | .ok os => pure (natsJ os)
+    | .error e => pure (errJ (some e))
+  | "eig_plan" =>
+    let m ← jIntMat (← j.getObjVal? "m")
+    let den ← jInt j "den"
+    let cols := nonzeroCols m
+    let mc := if (m.getD 0 #[]).size > cols.length then subMat m cols else m
+    let blocks := findBlocks mc
+    let (ents, _) := eigshPlan Gen.oneByOneRule mc den blocks
+    pure (Json.mkObj [
+      ("cols", natsJ cols), ("blocks", natMatJ blocks),
+      ("entries", Json.arr (ents.map (fun e => Json.mkObj [
+        ("kind", Json.str (if e.kind == .one then "one" else "solve")), ("labels", natsJ e.labels)])).toArray)])
+  | "eig_placement" =>
+    let blocks ← (← (← j.getObjVal? "blocks").getArr?).toList.mapM jNatList
+    let entsj ← (← j.getObjVal? "entries").getArr?
+    let ents ← entsj.toList.mapM (fun e => do
+      let k ← (← e.getObjVal? "kind").getStr?
+      let l ← jNatList (← e.getObjVal? "labels")
+      pure ({ kind := if k == "one" then .one else .solve, labels := l } : UniqEntry))
+    let ncols ← jNatList (← j.getObjVal? "ncols")
+    let (pl, total) := placement blocks ents ncols
+    pure (Json.mkObj [("ncol", Json.num (JsonNumber.fromNat total)),
+      ("entries", Json.arr (pl.map (fun (a, b, c, d, e) => natsJ [a, b, c, d, e])).toArray)])
+  | "sumrule_plan" =>
+    let m ← jIntMat (← j.getObjVal? "m")
+    let den ← jInt j "den"
+    let blocks := findBlocks m
+    pure (Json.mkObj [("blocks", natMatJ blocks),
+      ("solved", Json.arr ((sumrulePlan m den blocks).map Json.bool).toArray)])
+  | "block_bookkeeping" =>
+    let sizes ← jNatList (← j.getObjVal? "sizes")
+    let solved ← jNatList (← j.getObjVal? "solved")
+    let found ← jNatList (← j.getObjVal? "found")
+    let (a, b) := blockBookkeeping Gen.skippedSubBlockInComplement sizes (solved.map (· != 0)) found
+    pure (natsJ [a, b])
+  | "eig_consts" =>
+    let p ← jNat j "p_size"
+    pure (natsJ [Gen.eigSizeThreshold, targetSize Gen.eigTargetDiv Gen.eigTargetLo Gen.eigTargetHi p])
+  | "round_half_even" =>
+    let t ← jInt j "t"; let den ← jInt j "den"
+    pure (Json.num (JsonNumber.fromInt (roundHalfEven t den)))
   | _ => throw s!"unknown op {op}"
 
 partial def loop (h : IO.FS.Stream) (out : IO.FS.Stream) : IO Unit := do
